@@ -116,6 +116,14 @@ func LoadEngine(repo string, patterns []string, overlay map[string][]byte) (*Eng
 		Env:     append(os.Environ(), "GOFLAGS=-mod=mod", "GOPROXY=off", "GOSUMDB=off", "GOTOOLCHAIN=local"),
 		Tests:   false,
 	}
+	// never let `go list` tidy the go.mod of the tree under test (harness imports can
+	// turn an indirect requirement into a direct one): work on a private copy
+	if md, err := os.MkdirTemp("", "gosym-mod-*"); err == nil {
+		defer os.RemoveAll(md)
+		if mf := privateModfile(repo, md); mf != "" {
+			cfg.BuildFlags = append(cfg.BuildFlags, "-modfile="+mf)
+		}
+	}
 	pkgs, err := packages.Load(cfg, patterns...)
 	if err != nil {
 		return nil, err
